@@ -1,185 +1,151 @@
 (* C06 — proofs about Model/Construct.v, part 3: an object the constructor returns is never half-built.
-   Whatever the events were (unclosed elements, stray end tags, pending text), after the end of _feed()
-   the stack of open elements holds the root alone, the root is the current element and no text is
-   pending.  The only hypothesis is that no start event carries the reserved root name "[document]"
-   (html.parser cannot produce one: a tag name starts with a letter). *)
+   Whatever the events were (unclosed elements, stray end tags, pending text, even a start tag that
+   carries the reserved root name), after the end of _feed() the stack of open elements holds the root
+   alone, the root is the current element and no text is pending.  The root is recognised by identity
+   (it is element 0), so there is no hypothesis on the events. *)
 From Coq Require Import List NArith ZArith Bool Arith Lia.
 From BS Require Import Base.Sexp Base.Types Model.Heap Model.Edit Model.Build Model.Construct Proofs.ConstructProofs Proofs.RetryClean.
 Import ListNotations.
 Open Scope nat_scope.
 
-Definition not_root (cfg : bconfig) (b : bstate) (t : nat) : Prop := str_eqb (name_of b t) (c_root cfg) = false.
-
-Record wfb (cfg : bconfig) (b : bstate) (l : list nat) : Prop := mkwfb {
+Record wfb (b : bstate) (l : list nat) : Prop := mkwfb {
   w_stack : b_stack b = l ++ [0];
-  w_names : Forall (not_root cfg b) l;
-  w_root : name_of b 0 = c_root cfg;
+  w_nz : Forall (fun t => t <> 0) l;
   w_cur : b_cur b = hd_error (b_stack b);
-  w_lt : all_lt (nxt (b_st b)) (b_stack b)
+  w_pos : 0 < nxt (b_st b)
 }.
 
-Lemma zero_lt cfg b l : wfb cfg b l -> 0 < nxt (b_st b).
+(* a state that differs only in the heap, the payloads, the pending text, the most recent element *)
+Lemma wfb_frame b b' l :
+  wfb b l -> b_stack b' = b_stack b -> b_cur b' = b_cur b -> nxt (b_st b) <= nxt (b_st b') -> wfb b' l.
 Proof.
-  intros W. pose proof (w_lt _ _ _ W) as H. rewrite (w_stack _ _ _ W) in H.
-  unfold all_lt in H. apply Forall_app in H as [_ H]. now inversion H.
-Qed.
-
-(* a state that differs only in the heap, the pending text, the most recent element — and in payloads at
-   numbers that were not yet allocated *)
-Lemma wfb_frame cfg b b' l :
-  wfb cfg b l -> b_stack b' = b_stack b -> b_cur b' = b_cur b -> nxt (b_st b) <= nxt (b_st b') ->
-  (forall x, x < nxt (b_st b) -> b_pay b' x = b_pay b x) -> wfb cfg b' l.
-Proof.
-  intros W Hs Hc Hn Hp. pose proof (zero_lt _ _ _ W) as Z. destruct W as [A B C D E]. constructor.
+  intros [A B C D] Hs Hc Hn. constructor.
   - now rewrite Hs.
-  - rewrite A in E. unfold all_lt in E. apply Forall_app in E as [E _].
-    rewrite Forall_forall in *. intros t Ht. unfold not_root, name_of. rewrite Hp by auto. exact (B t Ht).
-  - unfold name_of. rewrite Hp by exact Z. exact C.
+  - exact B.
   - now rewrite Hc, Hs.
-  - rewrite Hs. eapply all_lt_mono; eauto.
+  - lia.
 Qed.
 
 Lemma owp_fields b o :
   b_stack (object_was_parsed b o) = b_stack b /\ b_cur (object_was_parsed b o) = b_cur b /\
-  nxt (b_st (object_was_parsed b o)) = nxt (b_st b) /\ b_pay (object_was_parsed b o) = b_pay b /\
-  b_data (object_was_parsed b o) = b_data b.
+  nxt (b_st (object_was_parsed b o)) = nxt (b_st b) /\ b_data (object_was_parsed b o) = b_data b.
 Proof. destruct b as [s p stk cnt pws scs data mre [c|]]; unfold object_was_parsed; cbn; repeat split; reflexivity. Qed.
 
-Lemma wfb_end_data cfg b l c : wfb cfg b l -> wfb cfg (end_data cfg b c) l /\ b_data (end_data cfg b c) = [].
+Lemma wfb_end_data cfg b l c : wfb b l -> wfb (end_data cfg b c) l /\ b_data (end_data cfg b c) = [].
 Proof.
   intros W. unfold end_data. destruct (b_data b) as [|d0 dl] eqn:E; [auto|].
   cbn [alloc].
-  match goal with |- context [object_was_parsed ?B ?O] => destruct (owp_fields B O) as (A1 & A2 & A3 & A4 & A5) end.
+  match goal with |- context [object_was_parsed ?B ?O] => destruct (owp_fields B O) as (A1 & A2 & A3 & A5) end.
   split; [|rewrite A5; reflexivity].
-  eapply wfb_frame; [exact W | rewrite A1; reflexivity | rewrite A2; reflexivity | rewrite A3; cbn; lia |].
-  intros x L. rewrite A4. cbn. unfold pupd. destruct (Nat.eqb_spec x (nxt (b_st b))); [lia | reflexivity].
+  eapply wfb_frame; [exact W | rewrite A1; reflexivity | rewrite A2; reflexivity | rewrite A3; cbn; lia].
 Qed.
 
-Lemma wfb_starttag cfg b l name prefix attrs : wfb cfg b l -> str_eqb name (c_root cfg) = false ->
-  exists l', wfb cfg (handle_starttag cfg b name prefix attrs) l'.
+Lemma wfb_starttag cfg b l name prefix attrs : wfb b l ->
+  exists l', wfb (handle_starttag cfg b name prefix attrs) l'.
 Proof.
-  intros W0 Hn. destruct (wfb_end_data cfg b l None W0) as [W _]. unfold handle_starttag.
+  intros W0. destruct (wfb_end_data cfg b l None W0) as [W _]. unfold handle_starttag.
   set (e := end_data cfg b None) in *. clearbody e. clear W0.
-  pose proof (zero_lt _ _ _ W) as Z. destruct W as [A B C D E].
+  destruct W as [A B C D].
   exists (nxt (b_st e) :: l). cbn [alloc]. unfold push_tag. constructor; cbn.
   - now rewrite A.
-  - constructor.
-    + unfold not_root, name_of. cbn. unfold pupd. rewrite Nat.eqb_refl. exact Hn.
-    + rewrite A in E. unfold all_lt in E. apply Forall_app in E as [E _]. rewrite Forall_forall in *.
-      intros t Ht. unfold not_root, name_of. cbn. unfold pupd.
-      destruct (Nat.eqb_spec t (nxt (b_st e))) as [X|X]; [specialize (E t Ht); lia | exact (B t Ht)].
-  - unfold name_of. cbn. unfold pupd. destruct (Nat.eqb_spec 0 (nxt (b_st e))); [lia | exact C].
+  - constructor; [lia | exact B].
   - reflexivity.
-  - constructor; [lia|]. eapply all_lt_mono; [|exact E]. lia.
+  - lia.
 Qed.
 
-Lemma wfb_pop cfg b t l : wfb cfg b (t :: l) -> wfb cfg (pop_tag b) l.
+Lemma wfb_pop b t l : wfb b (t :: l) -> wfb (pop_tag b) l.
 Proof.
-  intros [A B C D E]. unfold pop_tag. rewrite A. cbn [app]. constructor; cbn.
+  intros [A B C D]. unfold pop_tag. rewrite A. cbn [app]. constructor; cbn.
   - reflexivity.
   - inversion B; subst. assumption.
-  - exact C.
   - destruct l; reflexivity.
-  - rewrite A in E. cbn in E. inversion E; assumption.
+  - exact D.
 Qed.
 
-Lemma wfb_pop_loop cfg name prefix : forall k b l, wfb cfg b l -> k <= length l ->
-  exists l', wfb cfg (pop_loop k b name prefix) l'.
+Lemma wfb_pop_loop name prefix : forall k b l, wfb b l -> k <= length l ->
+  exists l', wfb (pop_loop k b name prefix) l'.
 Proof.
   induction k as [|k IH]; intros b l W Hk; cbn [pop_loop]; [eauto|].
   destruct (cget name (b_counter b)) as [z|]; [|eauto]. destruct (Z.eqb z 0); [eauto|].
-  rewrite (w_stack _ _ _ W). destruct l as [|t l]; [cbn in Hk; lia|]. cbn [app].
+  rewrite (w_stack _ _ W). destruct l as [|t l]; [cbn in Hk; lia|]. cbn [app].
   destruct (str_eqb name (name_of b t) && _).
-  - exists l. now apply (wfb_pop cfg b t l).
-  - apply (IH (pop_tag b) l); [now apply (wfb_pop cfg b t l) | cbn in Hk; lia].
+  - exists l. now apply (wfb_pop b t l).
+  - apply (IH (pop_tag b) l); [now apply (wfb_pop b t l) | cbn in Hk; lia].
 Qed.
 
-Lemma wfb_endtag cfg b l name prefix : wfb cfg b l -> exists l', wfb cfg (handle_endtag cfg b name prefix) l'.
+Lemma wfb_endtag cfg b l name prefix : wfb b l -> exists l', wfb (handle_endtag cfg b name prefix) l'.
 Proof.
   intros W0. destruct (wfb_end_data cfg b l None W0) as [W _]. unfold handle_endtag, pop_to_tag.
   set (e := end_data cfg b None) in *. clearbody e.
-  destruct (str_eqb name (c_root cfg)); [eauto|]. destruct (_ && _); [eauto|].
-  apply (wfb_pop_loop cfg name prefix _ e l W). rewrite (w_stack _ _ _ W), app_length. cbn. lia.
+  destruct (_ && _); [eauto|].
+  apply (wfb_pop_loop name prefix _ e l W). rewrite (w_stack _ _ W), app_length. cbn. lia.
 Qed.
 
-Definition no_root_start (cfg : bconfig) (e : event) : bool :=
-  match e with EStart n _ _ => negb (str_eqb n (c_root cfg)) | _ => true end.
-
-Lemma wfb_step cfg b l e : wfb cfg b l -> no_root_start cfg e = true -> exists l', wfb cfg (step_event cfg b e) l'.
+Lemma wfb_step cfg b l e : wfb b l -> exists l', wfb (step_event cfg b e) l'.
 Proof.
-  intros W H. destruct e; cbn [step_event no_root_start] in *.
-  - apply (wfb_starttag cfg b l); [exact W | now apply negb_true_iff].
+  intros W. destruct e; cbn [step_event].
+  - now apply (wfb_starttag cfg b l).
   - now apply (wfb_endtag cfg b l).
-  - exists l. unfold handle_data. eapply wfb_frame; [exact W | | | |]; cbn; auto.
+  - exists l. unfold handle_data. eapply wfb_frame; [exact W | | |]; cbn; auto.
   - exists l. exact (proj1 (wfb_end_data cfg b l cls W)).
 Qed.
 
-Lemma wfb_run cfg : forall evs b l, wfb cfg b l -> forallb (no_root_start cfg) evs = true ->
-  exists l', wfb cfg (run_events cfg b evs) l'.
+Lemma wfb_run cfg : forall evs b l, wfb b l -> exists l', wfb (run_events cfg b evs) l'.
 Proof.
-  unfold run_events. induction evs as [|e evs IH]; intros b l W H; cbn [fold_left]; [eauto|].
-  cbn [forallb] in H. apply andb_prop in H as [H1 H2].
-  destruct (wfb_step cfg b l e W H1) as [l' W']. exact (IH _ l' W' H2).
+  unfold run_events. induction evs as [|e evs IH]; intros b l W; cbn [fold_left]; [eauto|].
+  destruct (wfb_step cfg b l e W) as [l' W']. exact (IH _ l' W').
 Qed.
 
-Lemma wfb_reset cfg b : wfb cfg (reset_obj cfg b) [].
+Lemma wfb_reset cfg b : wfb (reset_obj cfg b) [].
 Proof.
   unfold reset_obj, push_tag. constructor; cbn.
   - reflexivity.
   - constructor.
-  - unfold name_of. cbn. reflexivity.
   - reflexivity.
-  - constructor; [lia | constructor].
+  - lia.
 Qed.
 
-Lemma pop_all_done cfg : forall k b l, wfb cfg b l -> length l <= k ->
+Lemma pop_all_done cfg : forall k b l, wfb b l -> length l <= k ->
   b_stack (pop_all k cfg b) = [0] /\ b_cur (pop_all k cfg b) = Some 0 /\ b_data (pop_all k cfg b) = b_data b.
 Proof.
   induction k as [|k IH]; intros b l W Hk.
-  - destruct l; [|cbn in Hk; lia]. cbn [pop_all]. rewrite (w_cur _ _ _ W), (w_stack _ _ _ W). auto.
-  - cbn [pop_all]. rewrite (w_cur _ _ _ W), (w_stack _ _ _ W). destruct l as [|t l]; cbn [app hd_error].
-    + rewrite (w_root _ _ _ W). replace (str_eqb (c_root cfg) (c_root cfg)) with true
-        by (symmetry; now apply str_eqb_eq).
-      rewrite (w_cur _ _ _ W), (w_stack _ _ _ W). auto.
-    + pose proof (w_names _ _ _ W) as N. inversion N as [|? ? N1 N2]; subst. unfold not_root in N1. rewrite N1.
-      destruct (IH (pop_tag b) l (wfb_pop cfg b t l W)) as (A & B & C); [cbn in Hk; lia|].
-      rewrite A, B, C. unfold pop_tag. rewrite (w_stack _ _ _ W). cbn. auto.
+  - destruct l; [|cbn in Hk; lia]. cbn [pop_all]. rewrite (w_cur _ _ W), (w_stack _ _ W). auto.
+  - cbn [pop_all]. rewrite (w_cur _ _ W), (w_stack _ _ W). destruct l as [|t l]; cbn [app hd_error].
+    + cbn [Nat.eqb]. rewrite (w_cur _ _ W), (w_stack _ _ W). auto.
+    + pose proof (w_nz _ _ W) as N. inversion N as [|? ? N1 N2]; subst.
+      apply Nat.eqb_neq in N1. rewrite N1.
+      destruct (IH (pop_tag b) l (wfb_pop b t l W)) as (A & B & C); [cbn in Hk; lia|].
+      rewrite A, B, C. unfold pop_tag. rewrite (w_stack _ _ W). cbn. auto.
 Qed.
 
 (* whatever events were delivered and whatever state the object was in before reset(): the returned
    object has exactly the root on the stack of open elements, the root is current, no text is pending *)
-Theorem finished_object : forall cfg b0 evs, forallb (no_root_start cfg) evs = true ->
+Theorem finished_object : forall cfg b0 evs,
   let b := finish cfg (run_events cfg (reset_obj cfg b0) evs) in
   b_stack b = [0] /\ b_cur b = Some 0 /\ b_data b = [].
 Proof.
-  intros cfg b0 evs H. cbv zeta. unfold finish.
-  destruct (wfb_run cfg evs _ [] (wfb_reset cfg b0) H) as [l W].
+  intros cfg b0 evs. cbv zeta. unfold finish.
+  destruct (wfb_run cfg evs _ [] (wfb_reset cfg b0)) as [l W].
   destruct (wfb_end_data cfg _ l None W) as [W' D].
   destruct (pop_all_done cfg (length (b_stack (end_data cfg (run_events cfg (reset_obj cfg b0) evs) None))) _ l W') as (A & B & C).
-  - rewrite (w_stack _ _ _ W'), app_length. cbn. lia.
+  - rewrite (w_stack _ _ W'), app_length. cbn. lia.
   - rewrite A, B, C, D. auto.
 Qed.
 
-Definition attempt_events (a : attempt) : list event :=
-  match a with Accept e => e | Reject e _ => e | Crash e _ => e end.
-
 (* the same for whatever the retry loop returns *)
 Lemma loop_fully_built cfg tail : forall ss b rej s,
-  Forall (fun st => forallb (no_root_start cfg) (attempt_events (st_out st)) = true) ss ->
   construct_loop cfg b rej ss tail = CSoup s ->
   b_stack (so_b s) = [0] /\ b_cur (so_b s) = Some 0 /\ b_data (so_b s) = [].
 Proof.
-  induction ss as [|st ss IH]; intros b rej s H; cbn [construct_loop].
+  induction ss as [|st ss IH]; intros b rej s; cbn [construct_loop].
   - destruct tail; discriminate.
-  - inversion H as [|? ? H1 H2]; subst.
-    destruct (st_out st) as [evs|evs msg|evs e] eqn:E; cbn [attempt_events] in H1.
+  - destruct (st_out st) as [evs|evs msg|evs e] eqn:E.
     + intros X; inversion X; subst. cbn [so_b]. now apply finished_object.
     + destruct (catches _ _); [|discriminate]. now apply IH.
     + destruct e as [?|c]; [discriminate|]. destruct (catches _ c); [|discriminate]. now apply IH.
 Qed.
 
 Theorem returned_object_fully_built : forall cfg b0 ss tail s,
-  Forall (fun st => forallb (no_root_start cfg) (attempt_events (st_out st)) = true) ss ->
   construct cfg b0 ss tail = CSoup s ->
   b_stack (so_b s) = [0] /\ b_cur (so_b s) = Some 0 /\ b_data (so_b s) = [].
 Proof. intros cfg b0 ss tail s. unfold construct. apply loop_fully_built. Qed.
